@@ -136,6 +136,8 @@ class Replayer:
     def build_obj(self, o):
         if o["kind"] == "none":
             return None
+        if o["kind"] == "shard":
+            return o
         if o["kind"] == "kv":
             return self.KnotVector(self.mode.nums(o["U"]))
         if o["kind"] == "cv":
@@ -169,6 +171,8 @@ class Replayer:
     def project(self, obj):
         if obj is None:
             return {"kind": "none"}
+        if isinstance(obj, dict):
+            return obj
         if isinstance(obj, self.KnotVector):
             return {"kind": "kv", "U": [self.num_out(x) for x in obj]}
         if isinstance(obj, self.Curve):
@@ -192,6 +196,8 @@ class Replayer:
             return False
         if got["kind"] == "none":
             return True
+        if got["kind"] not in ("kv", "cv"):
+            return got == want
         if not self.same_nums(got["U"], want["U"]):
             return False
         if got["kind"] == "kv":
